@@ -2,7 +2,7 @@
    The f32 operations and the decimal printer are transliterated dependency code
    (Model/CssNum.v), tied to the binaries by differential testing only. *)
 From GE Require Import Model.Str Model.CssNum Model.CssTok Model.CssOut Model.CssUrlEnc Model.Css.
-From GE Require Import Proofs.CssNumProofs.
+From GE Require Import Model.CssSpec Proofs.CssNumProofs Proofs.CssSpecProofs.
 From Coq Require Import ZArith.
 Open Scope N_scope.
 
@@ -29,3 +29,15 @@ Print Assumptions C10_int_exact_refuted.
 Theorem C10_int_exact_upto_100000 : forall i : Z, (0 <= i <= 100000)%Z -> int_prints_exactly i = true.
 Proof. exact int_exact_upto_100000. Qed.
 Print Assumptions C10_int_exact_upto_100000.
+
+(* "wherever it occurs ... at-rule preludes": refuted for a dimension directly in the prelude of an
+   at-rule (`@a 75rpx;` stays `75rpx`; known finding D29, pinned by the unit test
+   transform_rpx_in_simple_at_rules): the sheet is well-formed, lies in class 29 only, and the model
+   of the code does not conform to the specification, which wants `10vw` *)
+Theorem C10_prelude_rpx_refuted :
+  wf_tree plain d29_tree = true /\ model_conforms plain d29_tree (P 0 9) = false /\
+  known plain d29_tree = [K29] /\
+  map ser_tok (o_tokens (w_normal (transform plain d29_tree (P 0 9)))) = [[64;97]; [32]; [55;53;114;112;120]; [59]] /\
+  map (fun e => ser_tok (e_tok e)) (so_normal (expected plain d29_tree)) = [[64;97]; [49;48;118;119]; [59]].
+Proof. exact prelude_rpx_refuted_d29. Qed.
+Print Assumptions C10_prelude_rpx_refuted.
